@@ -677,6 +677,25 @@ func genC05(g *Gen, c09 bool) {
 			err = c.Unpack(&to, o...)
 			return to, err
 		})
+		c09Hist("Unpack into a target with a pre-filled map[int]V whose entries fail different validators", func() (interface{}, error) {
+			type V struct {
+				A int    `config:"a" validate:"min=1"`
+				B string `config:"b" validate:"required"`
+			}
+			var to struct {
+				M map[int]V         `config:"m"`
+				I map[interface{}]V `config:"i"`
+				Z int               `config:"z"`
+			}
+			to.M = map[int]V{1: {A: 0, B: "set"}, 2: {A: 5, B: ""}, 3: {A: 0, B: "set"}, 4: {A: 5, B: ""}}
+			to.I = map[interface{}]V{1: {A: 5, B: "x"}, "1": {A: 5, B: "x"}}
+			c, err := ucfg.NewFrom(map[string]interface{}{"z": 1})
+			if err != nil {
+				return nil, err
+			}
+			err = c.Unpack(&to)
+			return to.Z, err
+		})
 		// interface-keyed maps with two distinct keys that spell the same name (a string and a
 		// value of a named string type): whatever such an input means, it means it every time
 		for i := 0; i < n/8+3; i++ {
